@@ -26,17 +26,17 @@ import (
 // must equal the twin (and the twin built right after the last assignment).
 
 type op struct {
-	Kind   string `json:"op"`               // q | report | set | noise | snapshot | redecode
-	View   int    `json:"view,omitempty"`   // q: which level view
-	Obs    string `json:"obs,omitempty"`    // q: score | severity | geterror | encode | string
-	Field  string `json:"field,omitempty"`  // set: exported field name
-	Index  int    `json:"index,omitempty"`  // set: index of the code in the specification's list, -1 = unknown/invalid
+	Kind  string `json:"op"`              // q | report | set | noise | snapshot | redecode
+	View  int    `json:"view,omitempty"`  // q: which level view
+	Obs   string `json:"obs,omitempty"`   // q: score | severity | geterror | encode | string
+	Field string `json:"field,omitempty"` // set: exported field name
+	Index int    `json:"index,omitempty"` // set: index of the code in the specification's list, -1 = unknown/invalid
 	// set: further fields assigned in the same step, with no query in between
-	More []fieldSet `json:"more_fields,omitempty"`
-	Lang   string `json:"lang,omitempty"`   // report
-	Ver    int    `json:"ver,omitempty"`    // noise
-	Level  int    `json:"level,omitempty"`  // noise
-	Vector string `json:"vector,omitempty"` // noise
+	More   []fieldSet `json:"more_fields,omitempty"`
+	Lang   string     `json:"lang,omitempty"`   // report
+	Ver    int        `json:"ver,omitempty"`    // noise
+	Level  int        `json:"level,omitempty"`  // noise
+	Vector string     `json:"vector,omitempty"` // noise
 }
 
 type fieldSet struct {
@@ -45,9 +45,9 @@ type fieldSet struct {
 }
 
 type opsCase struct {
-	Ver     int    `json:"cvss_version"`
-	Level   int    `json:"decoder_level"`
-	NilRecv bool   `json:"nil_receiver"`
+	Ver     int  `json:"cvss_version"`
+	Level   int  `json:"decoder_level"`
+	NilRecv bool `json:"nil_receiver"`
 	// PreQuery: every observer is called on the constructor result *before* Decode (a fresh
 	// object may be queried; that must not influence what Decode produces)
 	PreQuery bool `json:"query_before_decode,omitempty"`
@@ -108,7 +108,7 @@ func makeSubject(c opsCase) (subject, bool) {
 	if c.FieldBuilt {
 		return makeSubjectFieldBuilt(c)
 	}
-	if len(c.PreAssign) > 0 && c.Ver == 2 && !c.NilRecv {
+	if len(c.PreAssign) > 0 && !c.NilRecv {
 		return makeSubjectPreAssigned(c)
 	}
 	if c.PreQuery && !c.NilRecv {
@@ -227,36 +227,56 @@ func makeSubjectFieldBuilt(c opsCase) (subject, bool) {
 	return s, true
 }
 
-// makeSubjectPreAssigned (v2): constructor, assignments, then the single Decode.
+// makeSubjectPreAssigned: constructor, assignments, optionally a complete observation, then
+// the single Decode. v2: any field (a group the vector does not carry stays absent whatever
+// its fields hold). v3: base fields and the version only — a successful Decode writes all
+// of them, whereas optional fields the vector omits keep what the caller wrote.
 func makeSubjectPreAssigned(c opsCase) (subject, bool) {
 	lv := spec.Level(c.Level)
-	o := obj2{level: lv}
-	switch lv {
-	case spec.Base:
-		o.B = m2.NewBase()
-	case spec.Temporal:
-		o.T = m2.NewTemporal()
-		o.B = o.T.BaseMetrics()
-	default:
-		o.E = m2.NewEnvironmental()
-		o.T, o.B = o.E.TemporalMetrics(), o.E.BaseMetrics()
+	var s subject
+	if c.Ver == 2 {
+		o := obj2{level: lv}
+		switch lv {
+		case spec.Base:
+			o.B = m2.NewBase()
+		case spec.Temporal:
+			o.T = m2.NewTemporal()
+			o.B = o.T.BaseMetrics()
+		default:
+			o.E = m2.NewEnvironmental()
+			o.T, o.B = o.E.TemporalMetrics(), o.E.BaseMetrics()
+		}
+		s = subject{ver: 2, o2: o}
+	} else {
+		o := obj3{level: lv}
+		switch lv {
+		case spec.Base:
+			o.B = m3.NewBase()
+		case spec.Temporal:
+			o.T = m3.NewTemporal()
+			o.B = o.T.BaseMetrics()
+		default:
+			o.E = m3.NewEnvironmental()
+			o.T, o.B = o.E.TemporalMetrics(), o.E.BaseMetrics()
+		}
+		s = subject{ver: 3, o3: o}
 	}
-	s := subject{ver: 2, o2: o}
 	for _, as := range c.PreAssign {
-		if m := spec.ByName(spec.V2Metrics, as.Field); m != nil && m.Level > spec.Base {
-			if val, ok := fieldValue(2, as.Field, as.Index); ok {
-				s.setField(as.Field, val)
-			}
+		m := metricOf(c.Ver, as.Field)
+		if c.Ver == 3 && !(as.Field == "Ver" || (m != nil && m.Level == spec.Base)) {
+			continue
+		}
+		if val, ok := fieldValue(c.Ver, as.Field, as.Index); ok {
+			s.setField(as.Field, val)
 		}
 	}
-	switch lv {
-	case spec.Base:
-		o.B.Decode(c.Input)
-	case spec.Temporal:
-		o.T.Decode(c.Input)
-	default:
-		o.E.Decode(c.Input)
+	if c.PreQuery {
+		s.snap()
+		if c.Ver == 3 {
+			s.reportOf("ja")
+		}
 	}
+	s.redecode(c.Input)
 	return s, true
 }
 
@@ -414,7 +434,7 @@ var checkC15 = register("C15/ops", func(c opsCase) string {
 	recipe.Ops = nil
 	recipe.PreQuery = false // the twin is never queried before its Decode
 	recipe.PreAssign = nil  // ... nor assigned before it
-	viewsOnly := len(c.PreAssign) > 0 && c.Ver == 2
+	viewsOnly := len(c.PreAssign) > 0 && c.Ver == 2 && !c.NilRecv
 	strip := func(s snapshot) snapshot {
 		if viewsOnly {
 			s.Fields = nil
@@ -441,10 +461,10 @@ var checkC15 = register("C15/ops", func(c opsCase) string {
 	}
 	reference := strip(twin().snap()) // the object as a process without history sees it
 	pr0, _ := makeSubject(recipe)
-	pristine0 := pr0.snap() // a plain decode of the input before any history
+	pristine0 := pr0.snap()               // a plain decode of the input before any history
 	defaultReport0 := pr0.reportDefault() // the option-less report before any history
 	exports0 := exportAll(pr0)            // template exports before any history
-	var immediate *snapshot // observation of A taken right after an assignment, before anything else ran
+	var immediate *snapshot               // observation of A taken right after an assignment, before anything else ran
 	check := func(step int, o op) string {
 		tw := twin()
 		sa := strip(a.snap())
@@ -854,14 +874,37 @@ func TestC15(t *testing.T) {
 			case 0: // the object is built by field assignment instead of Decode
 				cs.FieldBuilt, cs.NilRecv, cs.PreQuery = true, false, false
 				cl = append(cl, "subject:field-built")
-			case 1: // v2: optional-group fields assigned before the single Decode
-				if ver == 2 && !cs.NilRecv && lv > spec.Base {
-					for _, m := range spec.UpTo(spec.V2Metrics, lv) {
-						if m.Level > spec.Base && rapid.Bool().Draw(rt, "pre"+m.Name) {
-							cs.PreAssign = append(cs.PreAssign, op{Kind: "set", Field: m.Name, Index: rapid.IntRange(0, len(m.Codes)-1).Draw(rt, "preidx")})
+			case 1, 2: // fields assigned on the constructor result before the single Decode
+				if !cs.NilRecv {
+					// half of the time the base fields are given exactly the values the vector
+					// is going to write (an object "prepared" by hand and then decoded)
+					same := rapid.Bool().Draw(rt, "presame")
+					written := map[string]string{}
+					for _, seg := range strings.Split(cs.Input, "/") {
+						if k, v, ok := strings.Cut(seg, ":"); ok {
+							written[k] = v
 						}
 					}
-					cl = append(cl, "subject:v2-fields-assigned-before-decode")
+					tab := spec.V3Metrics
+					if ver == 2 {
+						tab = spec.V2Metrics
+					}
+					for _, m := range spec.UpTo(tab, lv) {
+						if ver == 3 && m.Level > spec.Base {
+							continue
+						}
+						if m.Level > spec.Base && !rapid.Bool().Draw(rt, "pre"+m.Name) {
+							continue
+						}
+						idx := rapid.IntRange(0, len(m.Codes)-1).Draw(rt, "preidx")
+						if same && m.Level == spec.Base {
+							if i := m.Index(written[m.Name]); i >= 0 {
+								idx = i
+							}
+						}
+						cs.PreAssign = append(cs.PreAssign, op{Kind: "set", Field: m.Name, Index: idx})
+					}
+					cl = append(cl, "subject:fields-assigned-before-decode")
 				}
 			}
 			cl = append(cl, "input:valid")
